@@ -24,8 +24,31 @@ func registerCalls(fn *ssa.Function, sc *Scenario, inLoop func(*ssa.BasicBlock) 
 			return
 		}
 		n := calleeName(call.Common())
+		if sc.Vals == nil {
+			sc.Vals = map[ssa.Value]int64{}
+			sc.BoolVals = map[ssa.Value]bool{}
+		}
+		if v, ok := bools[n]; ok {
+			sc.BoolVals[call] = v
+		}
 		if v, ok := ints[n]; ok {
+			if _, isTuple := call.Type().(*types.Tuple); isTuple {
+				if call.Referrers() != nil {
+					tup := call.Type().(*types.Tuple)
+					for _, ref := range *call.Referrers() {
+						if ex, ok := ref.(*ssa.Extract); ok && ex.Index == tup.Len()-1 {
+							sc.Vals[ex] = v
+						}
+					}
+				}
+			} else {
+				sc.Vals[call] = v
+			}
 			sc.Terms[ev.pathOf(call)] = v
+			if tup, isTuple := call.Type().(*types.Tuple); isTuple {
+				// (n, err) style results: the last component gets the value (nil error), the others are left to defaults
+				sc.Terms[fmt.Sprintf("%s#%d", ev.pathOf(call), tup.Len()-1)] = v
+			}
 		}
 		if v, ok := bools[n]; ok {
 			sc.Bools[ev.pathOf(call)] = v
